@@ -342,6 +342,9 @@ package ast
 //@   ensures [wf C09 C13] IsExpr(res) && TreeWF() && OptOK(r)
 // only rules that refer to no other rule are inlined (this is also why the rewriting terminates)
 //@   before cloneExpr assert [leaf-only C09 C13] !has(r.ruleUsesRules, ruleRef.Name.Val)
+// what replaces a rule reference is a CLONE of the referenced rule's expression, also for the last reference to the rule
+// (two references from one rule would otherwise share nodes that the merge arms rewrite in place)
+//@   must-call cloneExpr [inlined-is-cloned C09] if is(expr, "*RuleRefExpr") && res != expr then true
 // the bookkeeping the leaf test relies on: a rule's entry in ruleUsesRules is dropped only when its set of
 // referenced rules has become empty (a rule that still refers to others is never taken for a leaf), and
 // nothing is ever added
